@@ -1,1 +1,102 @@
-fn main(){}
+//! pfv: property-based testing / fuzzing harness for preflate-rs (see /verif/DESIGN.md)
+//!
+//!   pfv run <ID> quick|thorough [--seed N]      driver: spawns workers, writes evidence
+//!   pfv replay <ID> <file>                       evaluates exactly one saved case
+//!   pfv worker <ID> <tier> <seed> <shard> <n>    internal
+//!   pfv slow <ID> <sub> <start> <count>          internal: exhaustive block, per-case in-flight
+
+mod dna;
+mod driver;
+mod engine;
+mod gen_comp;
+mod gen_plain;
+mod gen_stream;
+mod gen_syn;
+mod props;
+
+use engine::*;
+
+fn usage() -> ! {
+    eprintln!("usage: pfv run <ID> quick|thorough [--seed N] | pfv replay <ID> <file> | pfv list");
+    std::process::exit(2);
+}
+
+fn parse_tier(s: &str) -> Tier {
+    match s {
+        "quick" => Tier::Quick,
+        "thorough" => Tier::Thorough,
+        _ => usage(),
+    }
+}
+
+fn main() {
+    let args: Vec<String> = std::env::args().collect();
+    if args.len() < 2 {
+        usage();
+    }
+    match args[1].as_str() {
+        "list" => {
+            for p in props::all() {
+                println!("{}", p.id);
+            }
+        }
+        "run" => {
+            if args.len() < 4 {
+                usage();
+            }
+            let def = props::find(&args[2]).unwrap_or_else(|| usage());
+            let tier = parse_tier(&args[3]);
+            let mut seed: u64 = std::env::var("VERIF_SEED")
+                .ok()
+                .and_then(|s| s.trim().parse::<i64>().ok())
+                .map(|v| v as u64)
+                .unwrap_or(1);
+            let mut i = 4;
+            let mut seed_cli = None;
+            while i < args.len() {
+                if args[i] == "--seed" && i + 1 < args.len() {
+                    seed_cli = args[i + 1].parse::<i64>().ok().map(|v| v as u64);
+                    i += 1;
+                }
+                i += 1;
+            }
+            if std::env::var("VERIF_SEED").is_err() {
+                if let Some(s) = seed_cli {
+                    seed = s;
+                }
+            }
+            let code = driver::run(def, tier, seed);
+            std::process::exit(code);
+        }
+        "worker" => {
+            if args.len() < 7 {
+                usage();
+            }
+            let def = props::find(&args[2]).unwrap_or_else(|| usage());
+            let tier = parse_tier(&args[3]);
+            let seed: u64 = args[4].parse().unwrap();
+            let shard: u32 = args[5].parse().unwrap();
+            let nshards: u32 = args[6].parse().unwrap();
+            driver::worker_main(def, tier, seed, shard, nshards);
+        }
+        "slow" => {
+            if args.len() < 6 {
+                usage();
+            }
+            let def = props::find(&args[2]).unwrap_or_else(|| usage());
+            let sub = args[3].clone();
+            let start: u64 = args[4].parse().unwrap();
+            let count: u64 = args[5].parse().unwrap();
+            driver::slow_main(def, &sub, start, count);
+        }
+        "replay" => {
+            if args.len() < 4 {
+                usage();
+            }
+            let def = props::find(&args[2]).unwrap_or_else(|| usage());
+            let code = driver::replay_main(def, &args[3]);
+            std::process::exit(code);
+        }
+        _ => usage(),
+    }
+}
